@@ -89,11 +89,11 @@ CHECKS = {
    design="3/C11"),
  "C02": dict(
    level="model_checking",
-   text="IR is built natively by go/ir from /repo for a hand-written corpus (~230 functions), a bounded-exhaustive family of generated programs (escapes, loops, break/continue/goto, early returns), 200 (thorough 600) sampled goto-built CFGs and selected repository packages, "
+   text="IR is built natively by go/ir from /repo for a hand-written corpus (~230 functions), a bounded-exhaustive family of generated programs (escapes, loops, break/continue/goto, early returns), 200 sampled goto-built CFGs and selected repository packages (thorough: more packages and a std subset), "
         "in 5 builder modes. Per function (<= 24 blocks quick, 28 thorough): dominance is decided by bounded path-existence SMT queries for every ordered block pair, def-dominates-use (incl. phi edges at the end of the "
         "predecessor) is read off that relation; operand/result typing is decided by the solver's sort checker over an encoding with one sort per Go type and one typed function per instruction rule (arithmetic, comparison, load/store, phi, return, field, index, map lookup/update, send, extract, closure bindings, calls), further documented rules are checked directly (MakeSlice, Slice, ChangeType, MakeInterface, TypeAssert, Alloc); "
         "terminator/phi-arity/pred-succ/operand-referrer clauses are checked as preconditions of the encoding.",
-   note="Programs: corpus + generator + selected packages (thorough: more repository packages and a std subset), not all type-correct packages. Typing relaxations calibrated on the pinned tree: comparison operands may be "
+   note="Programs: corpus + generator + selected packages (thorough: more repository packages and a std subset, same generated family), not all type-correct packages. Typing relaxations calibrated on the pinned tree: comparison operands may be "
         "mutually assignable; operands involving type parameters skipped. Entry-block definitions count as available in the recover region. All modes build serially (parallel building is C18, n/a).",
    technique="SMT path-existence queries + solver sort checking over natively built IR",
    design="3/C02"),
